@@ -205,6 +205,7 @@ class Ctx(object):
         self.trace = []
         self.identity_violations = 0
         self.last_body_result = {}
+        self.journal = []          # harness-side notes about what the program did (not part of the modelled trace)
 
 
 def ev_args(a, kw):
@@ -315,7 +316,7 @@ def call_site(ctx, site, env, builder):
         site["_fn"], site["_ctx"] = fn, ctx
     alias = site["cfg"]["alias"]
     aa, kk = ev_args(a, kw)
-    ctx.trace.append({"e": "begin", "alias": alias, "args": aa, "kwargs": kk})
+    ctx.trace.append({"e": "begin", "alias": alias, "args": aa, "kwargs": kk, "kind": site["k"]})
     ctx.last_body_result.pop(id(site), None)
     try:
         r = fn(a, kw)
@@ -351,6 +352,7 @@ def interp(ctx, c, env):
             except Exception:
                 return interp(ctx, c["h"], env)
         elif k == "discard":
+            ctx.journal.append({"j": "discard", "active": ctx.rec._active_recording is not None})
             ctx.rec.discard_recording()
             c = c["next"]
         elif k == "force":
@@ -488,6 +490,7 @@ def do_one_run(rec, spy, rng, run):
     ob["cass"] = spy.log
     ob["state"] = state_of(rec)
     ob["identity_violations"] = ctx.identity_violations
+    ob["journal"] = ctx.journal
     ob["draws_used"] = rng.pos - draws_before
     strip(run)
     return ob
@@ -521,5 +524,48 @@ def run_history(case):
     return res
 
 
+def run_c17(case):
+    kind = case.get("kind", "history")
+    if kind == "history":
+        return run_history(case)
+    if kind == "s3":
+        import fake_s3
+        s3c = fake_s3.install()
+        ratio = case["ratio"]
+        calc = None if ratio is None else (lambda category, size, recording: float(Fraction(*ratio)))
+        run_c17.n = getattr(run_c17, "n", 0) + 1
+        cas = s3c.S3TapeCassette("c17b%d_%d" % (os.getpid(), run_c17.n), key_prefix="k", read_only=False,
+                                 sampling_calculator=calc)
+        cas._random = ScriptedRandom([case["draw"]])
+        rec = cas.create_new_recording("Op")
+        rec.set_data("k", 1)
+        cas.save_recording(rec)
+        try:
+            cas.get_recording(rec.id)
+            kept = True
+        except NoSuchRecording:
+            kept = False
+        return {"kept": kept, "draws_used": cas._random.pos}
+    # seeded real Random: decisions of a history, twice, and of a content/outcome-varied twin
+    def decisions(runs):
+        spy = Spy(InMemoryTapeCassette())
+        rec = TapeRecorder(spy, random_seed=case["seed"])
+        out = []
+        for run in runs:
+            spy.log = []
+            rec.enable_recording()
+            call = build_operation(Ctx(rec), run["op"], run["prm"])
+            try:
+                call()
+            except BaseException:
+                pass
+            out.append("save" if any(c["c"] == "save" for c in spy.log) else "abort")
+        return out
+    a1, a2, b = decisions(case["runs_a"]), decisions(case["runs_a"]), decisions(case["runs_b"])
+    return {"a1": a1, "a2": a2, "b": b, "kept": a1.count("save"), "n": len(a1)}
+
+
 if __name__ == '__main__':
-    main({p: run_history for p in ("C01", "C02", "C03", "C04", "C05", "C09", "C17", "C18", "REC")})
+    hs = {p: run_history for p in ("C01", "C02", "C03", "C04", "C05", "C09", "C18", "REC")}
+    hs["C17"] = run_c17
+    main(hs)
